@@ -877,6 +877,7 @@ func (o *Obligation) queryVariant(extra []string, variant int) string {
 	if d := c.strDistinct(); d != "" {
 		b.WriteString(d + "\n")
 	}
+	b.WriteString("@@FLITS@@\n") // facts about float literal constants: after every declaration
 	for _, cmd := range c.cmds[:o.prefix] {
 		b.WriteString(cmd)
 		b.WriteString("\n")
@@ -924,7 +925,7 @@ func (o *Obligation) queryVariant(extra []string, variant int) string {
 				fmt.Fprintf(&lits, "\n(assert (= %s (fofbits #x%016x)))", n, c.ufloatLits[n])
 			}
 		}
-		ax += lits.String()
+		litAx := lits.String()
 		var present []string
 		for _, n := range names {
 			if strings.Contains(q, "(declare-fun "+n+" () F)") {
@@ -932,11 +933,12 @@ func (o *Obligation) queryVariant(extra []string, variant int) string {
 			}
 		}
 		if len(present) >= 2 {
-			ax += "\n(assert (distinct " + strings.Join(present, " ") + "))"
+			litAx += "\n(assert (distinct " + strings.Join(present, " ") + "))"
 		}
 		q = strings.Replace(q, "@@FBITS-LATER@@", ax, 1)
+		q = strings.Replace(q, "@@FLITS@@", litAx, 1)
 	}
-	return q
+	return strings.Replace(q, "@@FLITS@@\n", "", 1)
 }
 
 // heapDeclaredBefore: the heap constant an axiom talks about is declared in
